@@ -774,6 +774,9 @@ func (ex *Exec) step(fr *frame, ins ssa.Instruction) {
 			break
 		}
 		max := ex.bounds["slice"]
+		if ln.IsConst() && ln.C <= 1<<16 {
+			max = int(ln.C) // a concrete length needs no bound
+		}
 		l := ex.concretizeInt(ln, 0, max)
 		if l < 0 {
 			if ln.IsConst() {
